@@ -37,7 +37,7 @@ manifest = {
     },
     "engines": [
         {"name": "vmon", "path": "/verif/harness", "serves_properties": [c["property_id"] for c in checks],
-         "kind_free_text": "Rust monitor binary (generators + oracles + recorder) run as sharded child processes by the python driver /verif/check; overlays: Miri, ASan, TSan, valgrind"},
+         "kind_free_text": "Rust monitor binary (generators + oracles + recorder) run as sharded child processes by the python driver /verif/check; overlays: Miri (C03, C11, C18), ThreadSanitizer (C18, thorough), many short processes for cross-process comparison (C18). The C19 monitors live in /verif/harness_bindings (binary vmon_bindings, compiles /repo/bindings/src/lib.rs as a module)"},
     ],
     "checks": checks,
     "not_applicable": na,
